@@ -313,11 +313,147 @@ def gen_probes(rng, m, count):
     return out
 
 
+def hand_field(p1, p2, n, nv, vdims, rng, exact=True, vals=None, valid=None, negative=False, zeros=False):
+    """a field written down by hand (mesh, labels) with values from the core's fixed generator"""
+    m = dict(exact=exact, p1=[S(x) for x in p1], p2=[S(x) for x in p2], n=list(n))
+    cells = math.prod(n)
+    if vals is None:
+        vals = [F(rng.randint(-4096, 4096), 64) for _ in range(cells * nv)]
+        if negative:
+            vals = [-abs(v) - 1 if i % 2 == 0 else v for i, v in enumerate(vals)]
+        if zeros:
+            for cidx in range(0, cells, 2):
+                vals[cidx * nv:(cidx + 1) * nv] = [F(0)] * nv
+    if valid is None:
+        valid = [(i * 7 + 3) % 5 not in (0, 3) for i in range(cells)]
+    return dict(mesh=m, nv=nv, vdims=vdims, pyth=False, vals=[S(v) for v in vals], valid=list(valid))
+
+
+def gen_overwrite(rng, nmax, cmax, rep, what):
+    """write A to p, read p, write B (other values / shape / labels / subregions) to p, read p"""
+    a = gen_field(rng, True, nmax, cells_max=cmax, nv=rng.choice([1, 2, 3, 3, 4]))
+    if a["nv"] == 1 or (a["vdims"] and "field" in a["vdims"]):
+        a["vdims"] = None
+    subs_a = gen_subs(rng, a["mesh"]) if rng.random() < 0.5 else []
+    if what == "shape":
+        b = gen_field(rng, True, nmax, cells_max=cmax, nv=rng.choice([1, 2, 3, 4]))
+    else:
+        b = dict(a, mesh=dict(a["mesh"]))
+        b["pyth"], b["vals"] = gen_values(rng, a["mesh"]["n"], a["nv"], True)
+        b["valid"] = gen_valid(rng, math.prod(a["mesh"]["n"]))
+        if what == "labels" and a["nv"] > 1:
+            b["vdims"] = [["q", "p"], ["c3", "c1", "c2"], ["w", "z", "y", "x"]][a["nv"] - 2]
+    if b["nv"] == 1 or (b["vdims"] and "field" in b["vdims"]):
+        b["vdims"] = None
+    subs_b = gen_subs(rng, b["mesh"]) if (what == "subs" or rng.random() < 0.3) else []
+    return dict(kind="overwrite", what=what, rep=rep, a=a, subs_a=subs_a, b=b, subs_b=subs_b,
+                pathlib=rng.random() < 0.5)
+
+
+def directed_core():
+    """Seed-, tier- and run-independent cases: one small group per mechanism a check of this property has
+    been confronted with (seeded changes of rounds a-e and the repaired defects).  Built from a FIXED
+    generator and hand-written meshes / labels; the random streams follow after it."""
+    rng = random.Random(424242)
+    core = []
+    R3 = ["bin", "txt", "xml"]
+    box = ((F(-3, 2), F(1, 4), F(2)), (F(3, 2), F(13, 4), F(7, 2)))      # anisotropic 2x3x2, cells 3/2, 1, 3/4
+
+    def fld(nv, vdims, n=(2, 3, 2), **kw):
+        return hand_field(box[0], box[1], n, nv, vdims, rng, **kw)
+    # labels: order (a1), substrings of 'norm' (d2), '-component' endings (e3), prefixes of one another
+    for k, lab in enumerate([["mz", "mx", "my"], ["r", "phi", "z"], ["m", "n"], ["no", "rm", "or", "nor"],
+                             ["x-component", "y-component", "z-component"], ["b", "a"], ["m", "mm", "mmm"],
+                             ["orm", "z-component"]]):
+        f = fld(len(lab), lab)
+        core.append(dict(kind="round", field=f, rep=R3[k % 3], subs=[], save=True))
+        core.append(dict(kind="grid", field=f, probes=gen_probes(rng, f["mesh"], 5)))
+    # signed scalar: the norm array is |value| (a2); fully valid fields with exactly-zero cells (c2)
+    for k in range(3):
+        f = fld(1, None, negative=True)
+        core.append(dict(kind="grid", field=f, probes=gen_probes(rng, f["mesh"], 6)))
+        core.append(dict(kind="round", field=f, rep=R3[k], subs=[], save=True))
+    for k, nv in enumerate([1, 3, 2]):
+        f = fld(nv, None, zeros=True, valid=[True] * 12)
+        core.append(dict(kind="round", field=f, rep=R3[k], subs=[], save=True))
+        core.append(dict(kind="grid", field=f, probes=gen_probes(rng, f["mesh"], 4)))
+    # validity flags in VTK cell order (b2): non-uniform masks on meshes with >1 cell along >= 2 axes
+    for n in [(2, 3, 2), (3, 2, 1), (1, 2, 3), (3, 1, 2)]:
+        cells = math.prod(n)
+        f = hand_field(box[0], box[1], n, 2, ["u", "v"], rng, valid=[i % 3 == 1 or i == cells - 1 for i in range(cells)])
+        core.append(dict(kind="grid", field=f, probes=gen_probes(rng, f["mesh"], 8)))
+        core.append(dict(kind="round", field=f, rep=R3[sum(n) % 3], subs=[], save=True))
+    # default representation spelled / unspelled is binary and exact (b1): numbers needing > 11 digits
+    p1s = (0.123456789012345, -2.000000000000123e-9, 3.3333333333333335)
+    p2s = (0.723456789012345, 2.999999999999877e-9, 7.777777777777778)
+    for rep in ["bin8", None, "bin", "xml"]:
+        f = hand_field([F(x) for x in p1s], [F(x) for x in p2s], (3, 2, 2), 3, None, rng, exact=False,
+                       vals=[F(rng.uniform(-1, 1) * 8.123456789012345e5) for _ in range(36)])
+        core.append(dict(kind="round", field=f, rep=rep, subs=[], save=True, pathlib=rep is None))
+    # last vertex pinned to pmax (c1)
+    for p1, p2, n in [((2e-9, 0.0, 0.0), (9e-9, 1e-9, 2e-9), (7, 1, 2)), ((-5e-9, 1e-9, 0.0), (15e-9, 2e-9, 3e-9), (20, 1, 1)),
+                      ((0.1, 0.2, 0.3), (0.8, 1.1, 1.2), (7, 3, 1))]:
+        f = hand_field([F(x) for x in p1], [F(x) for x in p2], n, 1, None, rng, exact=False)
+        core.append(dict(kind="round", field=f, rep="bin", subs=[], save=True))
+        core.append(dict(kind="round", field=f, rep="xml", subs=[], save=True))
+        core.append(dict(kind="grid", field=f, probes=gen_probes(rng, f["mesh"], 4)))
+    # subregions: definition order kept (b3), side-car name = full file name + suffix (c3)
+    c = F(3, 2), F(1), F(3, 4)
+    lo = box[0]
+    sub_sets = [[["zz", [lo[0], lo[1], lo[2]], [lo[0] + c[0], lo[1] + 2 * c[1], lo[2] + 2 * c[2]]],
+                 ["aa", [lo[0], lo[1] + c[1], lo[2]], [lo[0] + 2 * c[0], lo[1] + 3 * c[1], lo[2] + c[2]]]],
+                [["r 2", [lo[0] + c[0], lo[1], lo[2]], [lo[0] + 2 * c[0], lo[1] + c[1], lo[2] + 2 * c[2]]],
+                 ["core", [lo[0], lo[1], lo[2]], [lo[0] + 2 * c[0], lo[1] + 3 * c[1], lo[2] + c[2]]],
+                 ["Z", [lo[0], lo[1] + 2 * c[1], lo[2] + c[2]], [lo[0] + c[0], lo[1] + 3 * c[1], lo[2] + 2 * c[2]]]]]
+    sub_sets = [[[nm, [S(x) for x in a], [S(x) for x in b]] for nm, a, b in ss] for ss in sub_sets]
+    for k in range(6):
+        f = fld([1, 3, 2][k % 3], None)
+        core.append(dict(kind="round", field=f, rep=R3[k % 3], subs=sub_sets[k % 2], save=True, pathlib=k % 2 == 0))
+    # a side-car left by an earlier save is replaced / left alone (e1 and the repaired defect)
+    for k in range(6):
+        f = fld([1, 3][k % 2], None)
+        core.append(dict(kind="round", field=f, rep=R3[k % 3], subs=sub_sets[1] if k == 4 else [], save=k != 5,
+                         stale=sub_sets[0]))
+    # a refused write leaves data file and side-car alone (d1)
+    plane = hand_field([F(0), F(0)], [F(2), F(3)], (2, 3), 1, None, rng)
+    line = hand_field([F(-1)], [F(3)], (4,), 3, None, rng)
+    sub2 = [["p", [S(F(0)), S(F(0))], [S(F(1)), S(F(2))]]]
+    sub1 = [["l", [S(F(-1))], [S(F(1))]]]
+    unl = fld(3, [])
+    for k, (why, f2, s2, rep2) in enumerate([("ndim", plane, sub2, "bin"), ("ndim", line, sub1, None),
+                                             ("ndim", plane, [], "xml"), ("nolabels", unl, sub_sets[1], "txt"),
+                                             ("nolabels", fld(2, []), [], None), ("badrep", fld(1, None), sub_sets[1], "bin4"),
+                                             ("ndim", plane, sub2, "txt")]):
+        core.append(dict(kind="refused", why=why, fresh=k == 6, first=fld(3, None), subs1=sub_sets[k % 2] if k != 2 else [],
+                         rep1=R3[k % 3], second=f2, subs2=s2, rep2=rep2, pathlib=k % 2 == 1))
+    # the same path read twice with the file rewritten in between (e2)
+    for rep in ["bin", "txt", "xml", None]:
+        for what in ["values", "shape", "labels", "subs"]:
+            core.append(gen_overwrite(rng, 3, 18, rep, what))
+    # legacy point-data files: x-fastest order (a3), negative leading numbers (d3)
+    for k, n in enumerate([(2, 3, 2), (3, 2, 1), (2, 2, 2), (4, 3, 1)]):
+        for vec in (False, True):
+            coords = [[box[0][a] + (j + F(1, 2)) * c[a] for j in range(n[a])] for a in range(3)]
+            dim = 3 if vec else 1
+            rows = [[F(-(i + 1) * (q + 2), 4) if (i + q) % 2 == 0 else F((i + 3) * (q + 1), 8) for q in range(dim)]
+                    for i in range(math.prod(n))]
+            core.append(dict(kind="legacy", exact=True, variant="plain", n=list(n), vec=vec,
+                             coords=[[S(x) for x in cc] for cc in coords], rows=[[S(x) for x in r_] for r_ in rows],
+                             side=None))
+    for c_ in core:
+        c_["core"] = True
+    return core
+
+
 def generate(rng, tier):
     quick = tier == "quick"
     nmax = 4 if quick else 6
     cmax = 36 if quick else 100
-    cases = []
+    cases = directed_core()
+    # --- overwrite in place: the same path read again after the file was rewritten
+    for k in range(12 if quick else 60):
+        cases.append(gen_overwrite(rng, nmax, cmax, ["bin", "txt", "xml", None, "bin8"][k % 5],
+                                   ["values", "shape", "labels", "subs"][k % 4]))
     # --- grid + independent cell lookup
     for k in range(70 if quick else 500):
         exact = k % 3 != 2
@@ -985,6 +1121,69 @@ def run_round(c):
     return rec
 
 
+def readback_clauses(prefix, fd, f, want_subs, ro, txt):
+    """the round-trip clause of the property for one read-back"""
+    out = []
+    m = fd["mesh"]
+    lo, hi, _ = geom(m)
+    same = (lambda a, b: close10(a, b)) if txt else (lambda a, b: a == b)
+    if not (all(same(a, b) for a, b in zip(lo, ro["pmin"])) and all(same(a, b) for a, b in zip(hi, ro["pmax"]))):
+        out.append(prefix + "region")
+    if ro["n"] != list(m["n"]):
+        out.append(prefix + "n")
+    want = [F(x) for x in fd["vals"]]
+    if ro["nv"] != fd["nv"] or len(ro["vals"]) != len(want) or not all(same(a, b) for a, b in zip(want, ro["vals"])):
+        out.append(prefix + "values")
+    if ro["valid"] != list(fd["valid"]):
+        out.append(prefix + "validity")
+    if ro["vdims"] != (None if f.vdims is None else list(f.vdims)):
+        out.append(prefix + "labels")
+    if [[nm, a, b] for nm, a, b in ro["subs"]] != [[nm, [F(x) for x in a], [F(x) for x in b]] for nm, a, b in want_subs]:
+        out.append(prefix + "subregions")
+    return out
+
+
+def run_overwrite(c):
+    """write A to p, read p, write B to the SAME p, read p again -- no other file is read by the
+    implementation in between (the bare VTK reader of the harness uses its own reader objects)"""
+    rec = dict(kind="overwrite", case=c, oracle=[], tags=[])
+    d = newdir()
+    path_s = os.path.join(d, "latest.vtk")
+    path = pathlib.Path(path_s) if c["pathlib"] else path_s
+    kw = {} if c["rep"] is None else dict(representation=c["rep"])
+    rep = "bin8" if c["rep"] is None else c["rep"]
+    txt = rep == "txt"
+    terms, obs = [], {}
+    prior = None
+    for tag, fd, subs in (("first", c["a"], c["subs_a"]), ("second", c["b"], c["subs_b"])):
+        f = build(fd, subs)
+        f.to_file(path, **kw)
+        fo = bare_read(path_s)
+        st_r, r = attempt(lambda: df.Field.from_file(path))
+        head = (f"CRound {g.b(fd['mesh']['exact'])} {g.b(fd['pyth'])} {g.s(rep)} {c_field_in(fd, f)} {c_subs(subs)} "
+                f"true {g.opt(prior, c_subs)} (Some {c_grid(fo)})")
+        if st_r != "ok":
+            rec["oracle"].append(f"overwrite-{tag}-read-rejected")
+            terms.append(f"{head} None")
+            obs[tag] = dict(read_err=r)
+        else:
+            ro = field_obs(r)
+            rec["oracle"] += readback_clauses(f"overwrite-{tag}-read-", fd, f, subs, ro, txt)
+            terms.append(f"{head} (Some {c_fld(ro)})")
+            obs[tag] = dict(read=ro)
+        prior = subs if (subs or prior) else None       # what the side-car holds after this save
+        if prior == []:
+            prior = None
+    rec["oracle"] = sorted(set(rec["oracle"]))
+    na, nb = c["a"]["mesh"]["n"], c["b"]["mesh"]["n"]
+    rec.update(obs=jsafe(obs), coq=f"CBoth ({terms[0]}) ({terms[1]})",
+               key=f"overwrite/{c['what']}/{c['rep']}/{tuple(na)}/{tuple(nb)}/{c['a']['nv']}/{c['b']['nv']}/"
+                   f"{len(c['subs_a'])}/{len(c['subs_b'])}/{c['pathlib']}",
+               size=sum(na) + sum(nb))
+    shutil.rmtree(d, ignore_errors=True)
+    return rec
+
+
 def file_bytes(path_s):
     out = []
     for p_ in (path_s, path_s + ".subregions.json"):
@@ -1157,7 +1356,8 @@ def run_legacy(c):
 
 
 def run_case(c):
-    return dict(grid=run_grid, round=run_round, read=run_read, legacy=run_legacy, refused=run_refused)[c["kind"]](c)
+    return dict(grid=run_grid, round=run_round, read=run_read, legacy=run_legacy, refused=run_refused,
+                overwrite=run_overwrite)[c["kind"]](c)
 
 
 def stats(records):
